@@ -71,6 +71,12 @@ class Sys:
         # runtime: the spawner type parameter is resolved to hannibal's TokioSpawner, tokio itself is modelled
         ins(r'^<[SP] as (spawner::)?Spawner<(Self|A)>>::(spawn_future|sleep|spawn_actor)', self.m_spawner_dispatch)
         ins(r'^tokio::spawn::<', self.m_tokio_spawn)
+        ins(r'^async_std::task::spawn::<', self.m_rt_spawn('AsyncJoinHandle'))
+        ins(r'^smol::spawn::<', self.m_rt_spawn('SmolTask'))
+        ins(r'^Task::<.*>::detach$', self.m_smol_detach)
+        ins(r'^async_lock::Mutex::<.*>::lock_blocking$', self.m_lock_blocking)
+        ins(r'^Timer::after$|^async_std::task::sleep$', self.m_tokio_sleep)
+        ins(r'^<S as StreamExt>::next$|^<T as StreamExt>::next$', self.m_user_stream_next)
         ins(r'^tokio::time::sleep$', self.m_tokio_sleep)
         ins(r'^<[MT] as Clone>::clone$', self.m_msg_clone)
         ins(r'^HashMap::<.*>::values$', self.m_map_values)
@@ -274,7 +280,58 @@ class Sys:
 
     def m_spawner_dispatch(self, e, st, fr, t, args):
         m = re.match(r'^<[SP] as (?:spawner::)?Spawner<(?:Self|A)>>::(\w+)(.*)$', t.func, re.S)
-        return e.dispatch(st, fr, t, args, f"<TokioSpawner as Spawner<A>>::{m.group(1)}{m.group(2)}")
+        sp = getattr(self, 'spawner', 'TokioSpawner')
+        return e.dispatch(st, fr, t, args, f"<{sp} as Spawner<A>>::{m.group(1)}{m.group(2)}")
+
+    def m_rt_spawn(self, kind):
+        """async_std::task::spawn -> JoinHandle (drop detaches, await yields T); smol::spawn -> Task (drop CANCELS,
+        detach() detaches, await yields T) - the documented contracts of the two runtimes"""
+        def h(e, st, fr, t, args):
+            n = st.meta.get('spawned', 0) + 1
+            st.meta['spawned'] = n
+            join = S.mobj(st, 'join', result=None, finished=False, aborted=False)
+            name = st.meta.get('next_task_name') or f"task{n}"
+            st.meta['next_task_name'] = None
+            oid = st.alloc(args[0])
+            st.meta['tasks'] = st.meta.get('tasks', ()) + ((name, oid, 'ready', (), 'future'),)
+            st.meta[('join_of', name)] = join
+            st.event('spawn', name)
+            return S.handle(kind, join, task=name)
+        return h
+
+    def m_smol_detach(self, e, st, fr, t, args):
+        v = args[0]
+        if not is_h(v, 'SmolTask'):
+            return NotImplemented
+        st.event('task_detached', v.extra['task'])
+        return UNIT
+
+    def cancel_task(self, st, name, why):
+        for (n, oid, status, blocked, kind) in st.meta.get('tasks', ()):
+            if n == name and status != 'done':
+                st.event('task_cancelled', name, why)
+                val = st.objs.get(oid)
+                st.objs[oid] = TOMB
+                st.meta['tasks'] = tuple((a, b, 'done' if a == name else c, d, k) for (a, b, c, d, k) in st.meta['tasks'])
+                j = st.meta.get(('join_of', name))
+                if j is not None:
+                    mset(st, j, finished=True, result=None)
+                st.meta[('frames', name)] = None
+                self.eng.dropper.drop(st, val, why)
+
+    def m_lock_blocking(self, e, st, fr, t, args):
+        l = S._lock_obj(e, st, args[0])
+        if l is None:
+            return NotImplemented
+        c = mget(st, l.extra['oid'])
+        if c['writer'] or c['readers']:
+            raise Unsupported("lock_blocking on a held lock (would block the thread)")
+        mset(st, l.extra['oid'], writer=True)
+        st.event('lock_acquired', l.extra['oid'], 'write')
+        return VAgg(name='LockGuard', extra={'oid': l.extra['oid'], 'kind': 'write'})
+
+    def m_user_stream_next(self, e, st, fr, t, args):
+        return VAgg(name='leaf', fields={('f', 0): args[0]}, extra={'kind': 'userstream', 'n': 0})
 
     def m_tokio_spawn(self, e, st, fr, t, args):
         """tokio::spawn(fut): the future becomes a task of the (single-threaded) executor; the JoinHandle observes its
@@ -574,13 +631,31 @@ class Sys:
                 return [(st, PENDING)]
             if fut.name == 'LockFuture':
                 return S.poll_lock_future(e, st, ref, fut)
-            if fut.name == 'JoinHandle':
+            if fut.name in ('JoinHandle', 'AsyncJoinHandle', 'SmolTask'):
                 j = mget(st, fut.extra['oid'])
                 if j['finished']:
                     res = j['result']
                     mset(st, fut.extra['oid'], result=None)
+                    if fut.name != 'JoinHandle':
+                        # async-std / smol: awaiting the handle yields the task's output itself
+                        if res is None:
+                            raise Unsupported("awaiting a cancelled task on async-std or smol")
+                        if res.vname == 'Err':
+                            # contract of async-task (async-std JoinHandle, smol Task): the panic of the task is
+                            # re-raised in whoever awaits its handle (validated natively: hv-entry panics)
+                            st.event('panic', 'propagated', f"panic of task {fut.extra.get('task')} re-raised by awaiting its {fut.name}")
+                            st.meta['panic_now'] = True
+                            return [(st, PENDING)]
+                        res = res.fields[('v', 'Ok', 0)]
                     return [(st, ready(res))]
                 block_on(st, fut.extra['oid'])
+                return [(st, PENDING)]
+            if fut.name == 'leaf' and fut.extra.get('kind') == 'userstream':
+                never = st.meta.get('never')
+                if never is None:
+                    never = S.mobj(st, 'never')
+                    st.meta['never'] = never
+                block_on(st, never)
                 return [(st, PENDING)]
             if fut.name == 'leaf':
                 return self.poll_user_leaf(st, ref, fut)
